@@ -17,33 +17,40 @@ VARIABLES scen,   \* [transport, calls]; call: [more (number of continues-replie
           ph,     \* "idle" | "sent" | "seen" | "ret"
           nrep,   \* replies the handler has issued for the current call
           ngot,   \* replies the client has received for the current call
-          nc2s, ns2c   \* frames the proxy has seen in each direction during the current call
+          nc2s, ns2c,  \* frames the proxy has seen in each direction during the current call
+          abs     \* replies of the current call the handler issued without any parameters
 
-vars == <<scen, ci, ph, nrep, ngot, nc2s, ns2c>>
+vars == <<scen, ci, ph, nrep, ngot, nc2s, ns2c, abs>>
 Total(c) == c.more + 1
 PTok(i) == 100 * i
 RTok(i, j) == 100 * i + j
 Cur == scen.calls[ci]
 
-InitWith(S) == scen = S /\ ci = 0 /\ ph = "idle" /\ nrep = 0 /\ ngot = 0 /\ nc2s = 0 /\ ns2c = 0
+InitWith(S) == scen = S /\ ci = 0 /\ ph = "idle" /\ nrep = 0 /\ ngot = 0 /\ nc2s = 0 /\ ns2c = 0 /\ abs = {}
 
 CSend == /\ ph = "idle" /\ ci < Len(scen.calls)
          /\ ci' = ci + 1 /\ ph' = "sent"
-         /\ UNCHANGED <<scen, nrep, ngot, nc2s, ns2c>>
-FrameC2S == /\ ph = "sent" /\ nc2s = 0 /\ nc2s' = nc2s + 1 /\ UNCHANGED <<scen, ci, ph, nrep, ngot, ns2c>>
+         /\ UNCHANGED <<scen, nrep, ngot, nc2s, ns2c, abs>>
+FrameC2S == /\ ph = "sent" /\ nc2s = 0 /\ nc2s' = nc2s + 1 /\ UNCHANGED <<scen, ci, ph, nrep, ngot, ns2c, abs>>
 HSee == /\ ph = "sent" /\ nc2s = 1
-        /\ ph' = "seen" /\ UNCHANGED <<scen, ci, nrep, ngot, nc2s, ns2c>>
-HReply == /\ ph = "seen" /\ nrep < Total(Cur)
-          /\ nrep' = nrep + 1 /\ UNCHANGED <<scen, ci, ph, ngot, nc2s, ns2c>>
-FrameS2C == /\ ns2c < nrep /\ ns2c' = ns2c + 1 /\ UNCHANGED <<scen, ci, ph, nrep, ngot, nc2s>>
+        /\ ph' = "seen" /\ UNCHANGED <<scen, ci, nrep, ngot, nc2s, ns2c, abs>>
+HReply(a) ==        \* a: this reply carries no parameters at all (Reply(nil) / ReplyError(name, nil))
+          /\ ph = "seen" /\ nrep < Total(Cur)
+          /\ nrep' = nrep + 1
+          /\ abs' = IF a THEN abs \cup {nrep + 1} ELSE abs
+          /\ UNCHANGED <<scen, ci, ph, ngot, nc2s, ns2c>>
+FrameS2C == /\ ns2c < nrep /\ ns2c' = ns2c + 1 /\ UNCHANGED <<scen, ci, ph, nrep, ngot, nc2s, abs>>
 CGet == /\ ngot < ns2c
-        /\ ngot' = ngot + 1 /\ UNCHANGED <<scen, ci, ph, nrep, nc2s, ns2c>>
+        /\ ngot' = ngot + 1 /\ UNCHANGED <<scen, ci, ph, nrep, nc2s, ns2c, abs>>
 HReturn == /\ ph = "seen" /\ nrep = Total(Cur)
-           /\ ph' = "ret" /\ UNCHANGED <<scen, ci, nrep, ngot, nc2s, ns2c>>
+           /\ ph' = "ret" /\ UNCHANGED <<scen, ci, nrep, ngot, nc2s, ns2c, abs>>
 CDone == /\ ph = "ret" /\ ngot = Total(Cur)
-         /\ ph' = "idle" /\ nrep' = 0 /\ ngot' = 0 /\ nc2s' = 0 /\ ns2c' = 0
+         /\ ph' = "idle" /\ nrep' = 0 /\ ngot' = 0 /\ nc2s' = 0 /\ ns2c' = 0 /\ abs' = {}
          /\ UNCHANGED <<scen, ci>>
-Next == CSend \/ FrameC2S \/ HSee \/ HReply \/ FrameS2C \/ CGet \/ HReturn \/ CDone
+Next == CSend \/ FrameC2S \/ HSee \/ (\E a \in BOOLEAN : HReply(a)) \/ FrameS2C \/ CGet \/ HReturn \/ CDone
+(* what the client's receive must yield for reply j: nothing iff the handler gave nothing - in particular not *)
+(* the parameters of an earlier reply                                                                          *)
+AbsentAtClient(j) == j \in abs
 
 (* reply j of the current call: continues on all but the last *)
 ContinuesOf(j) == j < Total(Cur)
